@@ -253,61 +253,182 @@ func r06_2(c *Ctx, r *Report) {
 	if fn == nil {
 		return
 	}
-	// when the walk crosses into the neighbouring year's table, the search key (iy, im) is the boundary month's own (year, month)
-	keyOK := map[string]string{}
-	// the search keys: the loop-carried values the months of the table are compared with,
-	// `m.GetYear() == <key> && m.GetMonth() == <key>` (found by that use, not by their names)
-	keyPhis := map[*ssa.Phi]string{}
-	for _, b := range fn.Blocks {
-		for _, ins := range b.Instrs {
-			bo, ok := ins.(*ssa.BinOp)
-			if !ok || bo.Op != token.EQL {
-				continue
+	// when the walk crosses into the neighbouring year's table, the month searched for there is the boundary month
+	// of the table just left: every value the months of a table are compared with (year with year, month with
+	// month; in Next itself or in an unexported helper it hands the key to) comes from the receiver (the first
+	// anchor), from the last month of a table (months.Back()) where n > 0, or from the first (months.Front()) where n < 0
+	fns := withHelpers(c, fn)
+	inSet := map[*ssa.Function]bool{}
+	for _, f := range fns {
+		inSet[f] = true
+	}
+	type origin struct {
+		what  string
+		block *ssa.BasicBlock
+	}
+	var describeObj func(v ssa.Value, depth int) []origin
+	describeObj = func(v ssa.Value, depth int) []origin {
+		if depth > 8 {
+			return []origin{{"?", nil}}
+		}
+		switch x := v.(type) {
+		case *ssa.Parameter:
+			if x.Parent() == fn {
+				if paramIndex(fn, x) == 0 {
+					return []origin{{"recv", nil}}
+				}
+				return []origin{{"parameter " + x.Name(), nil}}
 			}
-			for _, pr := range [][2]ssa.Value{{bo.X, bo.Y}, {bo.Y, bo.X}} {
-				_, f, okg := getterField(c, pr[0])
-				phi, isPhi := pr[1].(*ssa.Phi)
-				if !okg || !isPhi {
+			var out []origin
+			idx := paramIndex(x.Parent(), x)
+			for _, f := range fns {
+				for _, bb := range f.Blocks {
+					for _, ins := range bb.Instrs {
+						if call, ok := ins.(*ssa.Call); ok && call.Common().StaticCallee() == x.Parent() && idx < len(call.Common().Args) {
+							out = append(out, describeObj(call.Common().Args[idx], depth+1)...)
+						}
+					}
+				}
+			}
+			return out
+		case *ssa.Phi:
+			var out []origin
+			for _, e := range x.Edges {
+				if e != ssa.Value(x) {
+					out = append(out, describeObj(e, depth+1)...)
+				}
+			}
+			return out
+		case *ssa.TypeAssert:
+			if ld, ok := x.X.(*ssa.UnOp); ok {
+				if fa, ok := ld.X.(*ssa.FieldAddr); ok {
+					if el, ok := fa.X.(*ssa.Call); ok && el.Common().StaticCallee() != nil {
+						switch el.Common().StaticCallee().String() {
+						case "(*container/list.List).Back":
+							return []origin{{"Back", el.Block()}}
+						case "(*container/list.List).Front":
+							return []origin{{"Front", el.Block()}}
+						}
+					}
+					// an element reached by walking the list: the month under comparison itself
+					return []origin{{"element", nil}}
+				}
+			}
+		}
+		return []origin{{"other: " + v.String(), nil}}
+	}
+	var describeKey func(v ssa.Value, depth int) []origin
+	describeKey = func(v ssa.Value, depth int) []origin {
+		if depth > 8 {
+			return []origin{{"?", nil}}
+		}
+		if rc, f, ok := getterField(c, v); ok && (f == "LunarMonth.year" || f == "LunarMonth.month") {
+			var out []origin
+			for _, o := range describeObj(rc, depth+1) {
+				out = append(out, origin{strings.TrimPrefix(f, "LunarMonth.") + "(" + o.what + ")", o.block})
+			}
+			return out
+		}
+		switch x := v.(type) {
+		case *ssa.Phi:
+			var out []origin
+			for _, e := range x.Edges {
+				if e != ssa.Value(x) {
+					out = append(out, describeKey(e, depth+1)...)
+				}
+			}
+			return out
+		case *ssa.Parameter:
+			if x.Parent() != fn {
+				var out []origin
+				idx := paramIndex(x.Parent(), x)
+				for _, f := range fns {
+					for _, bb := range f.Blocks {
+						for _, ins := range bb.Instrs {
+							if call, ok := ins.(*ssa.Call); ok && call.Common().StaticCallee() == x.Parent() && idx < len(call.Common().Args) {
+								out = append(out, describeKey(call.Common().Args[idx], depth+1)...)
+							}
+						}
+					}
+				}
+				return out
+			}
+		}
+		return []origin{{"other: " + v.String(), nil}}
+	}
+	direction := func(b *ssa.BasicBlock) string {
+		// which sign of n the block is reached under: the dominating conditions evaluated for n = 5 and n = -5
+		consistent := func(nv int64) bool {
+			leaf := func(fr *evalFrame, v ssa.Value) (interface{}, bool) {
+				if p, ok := v.(*ssa.Parameter); ok && p.Parent() == fn && paramIndex(fn, p) == 1 {
+					return nv, true
+				}
+				return nil, false
+			}
+			for _, f := range domFacts(&evalFrame{fn: fn}, b) {
+				if o, ok := evalWith(f.fr, f.cond, leaf); ok {
+					if bv, isB := o.(bool); isB && bv != f.truth {
+						return false
+					}
+				}
+			}
+			return true
+		}
+		pos, neg := consistent(5), consistent(-5)
+		switch {
+		case pos && !neg:
+			return "forward"
+		case neg && !pos:
+			return "backward"
+		}
+		return "either"
+	}
+	seenKeys := map[string]bool{}
+	var bad []string
+	for _, f := range fns {
+		for _, b := range f.Blocks {
+			for _, ins := range b.Instrs {
+				bo, ok := ins.(*ssa.BinOp)
+				if !ok || bo.Op != token.EQL {
 					continue
 				}
-				switch f {
-				case "LunarMonth.year":
-					keyPhis[phi] = "iy"
-				case "LunarMonth.month":
-					keyPhis[phi] = "im"
+				for _, pr := range [][2]ssa.Value{{bo.X, bo.Y}, {bo.Y, bo.X}} {
+					rc, fld, okg := getterField(c, pr[0])
+					if !okg || (fld != "LunarMonth.year" && fld != "LunarMonth.month") {
+						continue
+					}
+					if os := describeObj(rc, 0); len(os) != 1 || os[0].what != "element" {
+						continue // the compared month must be an element of the table being searched
+					}
+					want := strings.TrimPrefix(fld, "LunarMonth.")
+					for _, o := range describeKey(pr[1], 0) {
+						seenKeys[o.what] = true
+						switch o.what {
+						case want + "(recv)":
+						case want + "(Back)":
+							if d := direction(o.block); d != "forward" {
+								bad = append(bad, fmt.Sprintf("%s taken where n is %s", o.what, d))
+							}
+						case want + "(Front)":
+							if d := direction(o.block); d != "backward" {
+								bad = append(bad, fmt.Sprintf("%s taken where n is %s", o.what, d))
+							}
+						default:
+							bad = append(bad, fmt.Sprintf("the table's %s is compared with %s", want, o.what))
+						}
+					}
 				}
 			}
 		}
 	}
-	_, of := findLoops(fn)
-	for phi, role := range keyPhis {
-		for i, e := range phi.Edges {
-			pred := phi.Block().Preds[i]
-			inLoop := false
-			for _, li := range of[phi.Block()] {
-				if li.body[pred] && li.header == phi.Block() {
-					inLoop = true
-				}
-			}
-			if !inLoop {
-				continue
-			}
-			keyOK[fmt.Sprintf("%s@%d", role, phi.Block().Index)] = boundaryKey(e)
+	var missing []string
+	for _, k := range []string{"year(recv)", "month(recv)", "year(Back)", "month(Back)", "year(Front)", "month(Front)"} {
+		if !seenKeys[k] {
+			missing = append(missing, k)
 		}
 	}
-	var bad []string
-	n := 0
-	for k, d := range keyOK {
-		n++
-		want := "GetYear("
-		if strings.HasPrefix(k, "im") {
-			want = "GetMonth("
-		}
-		if d != want+"Back" && d != want+"Front" {
-			bad = append(bad, k+" <- "+d)
-		}
-	}
-	r.check(len(bad) == 0 && n == 4, rule, "calendar.(*LunarMonth).Next re-anchors the search key on the boundary month", c.fnPos(fn), fmt.Sprintf("%d loop-carried keys; not taken from the table's last/first month: %v", n, bad))
+	sort.Strings(bad)
+	r.check(len(bad) == 0 && len(missing) == 0, rule, "calendar.(*LunarMonth).Next re-anchors the search key on the boundary month", c.fnPos(fn), fmt.Sprintf("search keys seen: %v; deviations: %v; expected but not seen: %v", sortedKeys(seenKeys), dedupe(bad), missing))
 	if f2 := c.Fn(r, rule, "calendar.NewLunarMonthFromYm"); f2 != nil {
 		s := ""
 		for _, b := range f2.Blocks {
